@@ -29,7 +29,7 @@ CA_STATES = ['none', 'wait_veto', 'normal', 'bypass', 'cannot', 'moved']
 def cases(tier, seed):
     rng = random.Random(5000 + seed)
     out = []
-    n = 60 if tier == 'quick' else 800
+    n = 150 if tier == 'quick' else 1500
     for layer in ('j1939-21', 'j1939-22'):
         # every single-CA state once, then random combinations
         for st in CA_STATES:
